@@ -482,7 +482,13 @@ pub fn run_virtio<F: FileSystem + Sync>(srv: &Server<F>, shape: &VShape, req: &[
         let len = if d.wbytes.len() >= 4 { u32::from_le_bytes([d.wbytes[0], d.wbytes[1], d.wbytes[2], d.wbytes[3]]) as usize } else { 0 };
         let take = len.min(d.wbytes.len());
         records.push(d.wbytes[..take].to_vec());
-        if lm >= len && stray.is_none() {
+        // Bytes past the reply length: legitimate only as left-over zero-copy payload of READ /
+        // READDIR / READDIRPLUS whose filesystem call failed after producing data (the payload is
+        // written in place behind the header slot before the outcome is known). For every other
+        // opcode anything behind the reply is a second message.
+        let op = if req.len() >= 8 { u32::from_le_bytes([req[4], req[5], req[6], req[7]]) } else { 0 };
+        let zero_copy_payload = op == 15 || op == 28 || op == 44;
+        if lm >= len && stray.is_none() && !(zero_copy_payload && len >= 16) {
             stray = Some(format!("writable byte at reply-area offset {} modified beyond the reply length {}", lm, len));
         }
         if len > d.wbytes.len() && stray.is_none() {
